@@ -115,3 +115,68 @@ Proof.
   rewrite nth_error_nth' with (d := 0) by (rewrite seq_length; exact Hj). rewrite seq_nth by exact Hj. reflexivity.
 Qed.
 End RemoveLoop.
+
+(* ---- totality: a result that is a value with property P or the one expected error; never a panic ---- *)
+Definition fine {A} (P : A -> Prop) (r : res A) : Prop :=
+  match r with Ok x => P x | Err e => e = E_POW00 | Panic _ => False end.
+Lemma fine_bind {A B} (P : A -> Prop) (Q : B -> Prop) (m : res A) (k : A -> res B) :
+  fine P m -> (forall x, P x -> fine Q (k x)) -> fine Q (bind m k).
+Proof. intros Hm Hk. destruct m as [x| |]; cbn [bind fine] in *; [exact (Hk x Hm)|exact Hm|exact Hm]. Qed.
+Lemma fine_weaken {A} (P Q : A -> Prop) r : (forall x, P x -> Q x) -> fine P r -> fine Q r.
+Proof. intros H. destruct r; cbn; auto. Qed.
+
+Section RemoveLoopTotal.
+Context {A : Type}.
+Variable opA : nat -> A -> A -> res A.
+Variable P : A -> Prop.
+Variable ok_idx : nat -> Prop.
+Hypothesis op_fine : forall k a b, ok_idx k -> P a -> P b -> fine P (opA k a b).
+Local Notation pairs := (@ChainMachine.pairs unit).
+Local Notation ids := (@ChainMachine.ids unit).
+
+Lemma Forall_set_nth' : forall (l : list A) p a, Forall P l -> P a -> Forall P (set_nth p a l).
+Proof. induction l as [|x l IH]; intros p a Hl Ha; [destruct p; constructor|]. inversion Hl; subst. destruct p; cbn [set_nth]; constructor; auto. Qed.
+Lemma Forall_remove_nth' : forall (l : list A) p, Forall P l -> Forall P (remove_nth p l).
+Proof. induction l as [|x l IH]; intros p Hl; [destruct p; constructor|]. inversion Hl; subst. destruct p; cbn [remove_nth]; [assumption|constructor; auto]. Qed.
+
+(* the chain of remaining operator identifiers; node q is the left operand of the operator at chain position q *)
+Theorem rloop_fine : forall rest k num_inds (nodes : list A) (chain : list nat),
+  Forall P nodes -> length nodes = S (length chain) -> NoDup chain -> NoDup rest -> (forall j, In j rest -> ok_idx j) ->
+  (forall t j, nth_error rest t = Some j -> exists q, nth_error num_inds (k + t) = Some q /\ nth_error chain q = Some j) ->
+  fine (fun nodes' => Forall P nodes' /\ length nodes' + length rest = length nodes) (rloop opA rest k num_inds nodes).
+Proof.
+  induction rest as [|i rest IH]; intros k num_inds nodes chain HP Hlen NDc NDr Hok Hpos.
+  - cbn. split; [exact HP|cbn; lia].
+  - cbn [rloop]. destruct (Hpos 0 i eq_refl) as (q & Hq & Hqi). rewrite Nat.add_0_r in Hq. rewrite Hq.
+    assert (Hql : q < length chain) by (apply nth_error_Some; congruence).
+    destruct (nth_error nodes q) as [n1|] eqn:E1; [|apply nth_error_None in E1; lia].
+    destruct (nth_error nodes (S q)) as [n2|] eqn:E2; [|apply nth_error_None in E2; lia].
+    rewrite Forall_forall in HP.
+    apply (fine_bind P _ _ _ (op_fine i n1 n2 (Hok i (or_introl eq_refl)) (HP n1 (nth_error_In _ _ E1)) (HP n2 (nth_error_In _ _ E2)))).
+    intros c Pc.
+    assert (HP' : Forall P (remove_nth (S q) (set_nth q c nodes))).
+    { apply Forall_remove_nth'. apply Forall_set_nth'; [apply Forall_forall; exact HP|exact Pc]. }
+    assert (Hlen' : length (remove_nth (S q) (set_nth q c nodes)) = S (length (remove_nth q chain))).
+    { assert (R1 : forall (X : Type) (l : list X) p, p < length l -> length (remove_nth p l) = pred (length l)).
+      { intros X l. induction l as [|x l IHl]; intros p Hp; [cbn in Hp; lia|]. destruct p; [reflexivity|]. cbn [remove_nth length]. rewrite IHl by (cbn in Hp; lia). cbn in Hp. destruct l; [cbn in Hp; lia|reflexivity]. }
+      assert (S1 : forall (X : Type) (l : list X) p x, length (set_nth p x l) = length l).
+      { intros X l. induction l as [|y l IHl]; intros p x; [destruct p; reflexivity|]. destruct p; cbn; [reflexivity|]. rewrite IHl. reflexivity. }
+      rewrite R1 by (rewrite S1; lia). rewrite S1, R1 by exact Hql. lia. }
+    refine (fine_weaken _ _ _ _ (IH (S k) _ _ (remove_nth q chain) HP' Hlen' (NoDup_remove_nth _ _ NDc) ltac:(inversion NDr; assumption) (fun j Hj => Hok j (or_intror Hj)) _)).
+    + intros nodes' [H1 H2]. split; [exact H1|]. cbn [length]. rewrite Hlen' in *.
+      assert (R1 : length (remove_nth q chain) = pred (length chain)).
+      { clear -Hql. revert q Hql. induction chain as [|x l IHl]; intros p Hp; [cbn in Hp; lia|]. destruct p; [reflexivity|]. cbn [remove_nth length]. rewrite IHl by (cbn in Hp; lia). cbn in Hp. destruct l; [cbn in Hp; lia|reflexivity]. }
+      lia.
+    + intros t j Ht. destruct (Hpos (S t) j Ht) as (q' & H1 & H2).
+      assert (Hne : j <> i).
+      { intros E. subst j. inversion NDr as [|? ? Hni _]; subst. apply Hni. eapply nth_error_In; exact Ht. }
+      assert (Hqq : q' <> q).
+      { intros E. subst q'. rewrite Hqi in H2. congruence. }
+      exists (if Nat.ltb q q' then pred q' else q'). split.
+      * replace (S k + t) with (k + S t) by lia. rewrite nth_error_map, H1. reflexivity.
+      * destruct (Nat.ltb_spec q q') as [Hlt'|Hge].
+        -- rewrite nth_error_remove_nth_gt by exact Hlt'. exact H2.
+        -- rewrite nth_error_remove_nth_lt by lia. exact H2.
+Qed.
+End RemoveLoopTotal.
+
